@@ -222,8 +222,8 @@ theorem C20_gen_kwargs_resolve : AllRows RowOk kwargTable := by
     | (intro own _ fn; exact truthyLookup_eq _ own)
     | (intro own alt fn
        cases own <;> cases alt <;>
-         simp [aclAddress, effective, optionalKey, requiredKey, truthyLookup, Py.cond, Py.not, Py.sub,
-               Py.get, Py.getD, Py.lit, Py.app, Option.bind] <;>
+         simp [aclAddress, effective, optionalKey, requiredKey, truthyLookup, Py.cond, Py.not, Py.sub, Py.has, Py.hasNot, Py.and, Py.or,
+               Py.isNone, Py.isNotNone, Py.get, Py.getD, Py.lit, Py.app, Option.bind, truthy_bool, truthy_none] <;>
          (try split) <;> (try simp_all))
 
 /-- the three router-like loaders each have their ACL address rows (non-vacuity of the theorem above on the rows that matter) -/
